@@ -89,24 +89,22 @@ def DropCutsAll (s : Lsm) (ps : List Bytes) (flushIds : List Nat) (base numKeep 
 
 /-- **the whole `DropPrefix` run keeps a good state good**, and only removes entries -/
 theorem dropPrefixRun_good {s s' : Lsm} {ps : List Bytes} {flushIds : List Nat} {base numKeep : Nat}
-    {steps : List DropStep} (hg : LsmGood s) (hsf : L0SF s) (hbl : base < s.levels.length)
+    {steps : List DropStep} (hg : LsmGood s) (hbl : base < s.levels.length)
     (hbetween : ∀ j, 0 < j → j < base → s.levels.getD j [] = [])
     (hcuts : DropCutsAll s ps flushIds base numKeep steps)
     (hrun : s.dropPrefixRun ps flushIds base numKeep steps = some s') :
-    LsmGood s' ∧ L0SF s' ∧ ∀ e ∈ s'.allEntries, e ∈ s.allEntries := by
+    LsmGood s' ∧ ∀ e ∈ s'.allEntries, e ∈ s.allEntries := by
   obtain ⟨h, hv, hl, hu, himm⟩ := hg
   have h0 : 0 < s.levels.length := by omega
   unfold Lsm.dropPrefixRun at hrun
   split at hrun
   · simp only [Option.some.injEq] at hrun
     subst hrun
-    exact ⟨⟨h, hv, hl, hu, himm⟩, hsf, fun _ he => he⟩
+    exact ⟨⟨h, hv, hl, hu, himm⟩, fun _ he => he⟩
   · simp only at hrun
     have i1 := flushAll_inv h h0 flushIds
     have v1 := flushAll_verBound hv h0 flushIds
     have l1 := flushAll_layeredX hl h0 flushIds
-    have sf1 : L0SF (s.flushAll flushIds) := by
-      rw [flushAll_eq_flush himm]; exact C14_l0sf_flush hl hsf _
     obtain ⟨_, fi, fl, fo⟩ := flushAll_spec h0 flushIds
     cases h2 : Lsm.dropLevelsRun ps numKeep (dropLevels (s.flushAll flushIds)) (s.flushAll flushIds) steps with
     | none => rw [h2] at hrun; cases hrun
@@ -120,11 +118,6 @@ theorem dropPrefixRun_good {s s' : Lsm} {ps : List Bytes} {flushIds : List Nat} 
         intro e he
         have := o2.sub e he
         rwa [allEntries_flushAll h0] at this
-      have sf2 : L0SF s2 := by
-        obtain ⟨m, hm⟩ := sf1
-        refine ⟨m, ?_⟩
-        rw [getD_congr (o2.other 0 (fun h0' => by have := (mem_dropLevels.mp h0').1; omega))]
-        exact hm
       have imm2 : s2.imm = [] := o2.imm.trans fi
       cases h3 : s2.dropL0Run ps base numKeep steps2 with
       | none => rw [h3] at hrun; cases hrun
@@ -137,7 +130,7 @@ theorem dropPrefixRun_good {s s' : Lsm} {ps : List Bytes} {flushIds : List Nat} 
           simp only [Option.some.injEq] at hrun
           subst hrun
           rcases dropL0Run_cases h3 with ⟨rfl, _, _⟩ | ⟨st, hst, hne, hbpos, hc⟩
-          · exact ⟨⟨o2.inv, o2.ver, o2.lay, LL.kvFun_subset hu sub2, imm2⟩, sf2, sub2⟩
+          · exact ⟨⟨o2.inv, o2.ver, o2.lay, LL.kvFun_subset hu sub2, imm2⟩, sub2⟩
           · have hbetween2 : ∀ j, 0 < j → j < base → s2.levels.getD j [] = [] := by
               intro j hj1 hj2
               apply o2.empty j
@@ -149,8 +142,7 @@ theorem dropPrefixRun_good {s s' : Lsm} {ps : List Bytes} {flushIds : List Nat} 
             have sub3 : ∀ e ∈ s3.allEntries, e ∈ s.allEntries :=
               fun e he => sub2 e (LL.mem_allEntries_compact' o2.inv hok hc he)
             refine ⟨⟨C14_compact_inv o2.inv o2.ver hok hc hcutL0, C14_compact_verBound o2.inv o2.ver hok hc,
-              C14_compact_layeredX o2.inv o2.lay hok (fun _ => hto) hc, LL.kvFun_subset hu sub3, ?_⟩,
-              C14_l0sf_compact o2.inv hok sf2 hc, sub3⟩
+              C14_compact_layeredX o2.inv o2.lay hok (fun _ => hto) hc, LL.kvFun_subset hu sub3, ?_⟩, sub3⟩
             obtain ⟨_, _, rfl⟩ := LL.compact_some hc
             exact imm2
 
@@ -194,6 +186,9 @@ inductive ReachD (nlev : Nat) : List Ent → Nat → Nat → Lsm → Prop
       (hfresh : ∀ x ∈ hist, x.key = e.key → x.ver < e.ver) : ReachD nlev (e :: hist) dm nm (s.putEnt e)
   | flush {hist : List Ent} {dm nm : Nat} {s : Lsm} (r : ReachD nlev hist dm nm s) (id : Nat) :
       ReachD nlev hist dm nm (s.flush id)
+  | resort {hist : List Ent} {dm nm : Nat} {s : Lsm} (r : ReachD nlev hist dm nm s) {l0 l0' : List Tbl}
+      {rest : List (List Tbl)} (hl : s.levels = l0 :: rest) (hp : l0'.Perm l0) :
+      ReachD nlev hist dm nm { s with levels := l0' :: rest }
   | compact {hist : List Ent} {dm nm : Nat} {s s' : Lsm} (r : ReachD nlev hist dm nm s) (cd : CompactDef)
       (d n now' : Nat) (hi : ChoiceIdxOk s cd) (htop : cd.top ≠ []) (hvc : validChoice s cd = true)
       (hdp : cd.dropPrefixes = []) (hs : s.compact cd d n now' = some s')
@@ -216,6 +211,7 @@ theorem Reach.toReachD {nlev : Nat} {hist : List Ent} {dm nm : Nat} {s : Lsm}
   | init => exact .init
   | put _ e hpos hmax hfresh ih => exact .put ih e hpos hmax hfresh
   | flush _ id ih => exact .flush ih id
+  | resort _ hl hp ih => exact .resort ih hl hp
   | compact _ cd d n now' hi htop hvc hdp hs hcut ih => exact .compact ih cd d n now' hi htop hvc hdp hs hcut
 
 theorem dropAll_no_entries (s : Lsm) (e : Ent) : e ∉ s.dropAll.allEntries := by
@@ -226,41 +222,50 @@ theorem dropAll_no_entries (s : Lsm) (e : Ent) : e ∉ s.dropAll.allEntries := b
 theorem C29_reachD_inv {nlev : Nat} {hist : List Ent} {dm nm : Nat} {s : Lsm} (r : ReachD nlev hist dm nm s) :
     ReachInv hist s := by
   induction r with
-  | init => exact ⟨LL.init_good nlev, C14_l0sf_init nlev, fun e he => absurd he (LL.init_no_entries nlev e)⟩
+  | init => exact ⟨LL.init_good nlev, fun e he => by simp at he, fun e he => absurd he (LL.init_no_entries nlev e)⟩
   | put _ e hpos hmax hfresh ih =>
-    obtain ⟨⟨h, hv, hl, hu, himm⟩, hsf, hsub⟩ := ih
+    obtain ⟨⟨h, hv, hl, hu, himm⟩, hho, hsub⟩ := ih
     refine ⟨⟨LL.put_inv h hpos, LL.put_verBound hv hmax,
       LL.put_layeredX hl (fun x hx hk => Nat.le_of_lt (hfresh x (hsub x hx) hk)),
-      LL.put_keyVerUnique hu (fun x hx hk => hfresh x (hsub x hx) hk), himm⟩, C14_l0sf_put hsf e, ?_⟩
-    intro x hx
-    rcases LL.mem_allEntries_put hx with rfl | hx'
-    · simp
-    · exact List.mem_cons_of_mem _ (hsub x hx')
+      LL.put_keyVerUnique hu (fun x hx hk => hfresh x (hsub x hx) hk), himm⟩, ?_, ?_⟩
+    · intro x hx
+      rcases List.mem_cons.mp hx with rfl | hx'
+      · exact ⟨hpos, hmax⟩
+      · exact hho x hx'
+    · intro x hx
+      rcases LL.mem_allEntries_put hx with rfl | hx'
+      · simp
+      · exact List.mem_cons_of_mem _ (hsub x hx')
   | @flush hist dm nm s _ id ih =>
-    obtain ⟨⟨h, hv, hl, hu, himm⟩, hsf, hsub⟩ := ih
+    obtain ⟨⟨h, hv, hl, hu, himm⟩, hho, hsub⟩ := ih
     refine ⟨⟨C14_flush_inv h id, fun x hx => hv x ((LL.mem_allEntries_flush s id x).mp hx),
-      C14_flush_layeredX hl himm id, C14_flush_keyVerUnique hu id, ?_⟩, C14_l0sf_flush hl hsf id,
+      C14_flush_layeredX hl himm id, C14_flush_keyVerUnique hu id, ?_⟩, hho,
       fun x hx => hsub x ((LL.mem_allEntries_flush s id x).mp hx)⟩
     rcases LL.flush_eq_self_or s id with he | ⟨_, _, _, _, he⟩ <;> rw [he] <;> exact himm
+  | resort _ hl hp ih =>
+    obtain ⟨⟨h, hv, hlx, hu, himm⟩, hho, hsub⟩ := ih
+    exact ⟨⟨LL.resort_inv h hl hp, fun x hx => hv x ((LL.mem_allEntries_resort hl hp x).mp hx),
+      LL.resort_layeredX hlx hl hp, LL.resort_keyVerUnique hu hl hp, himm⟩, hho,
+      fun x hx => hsub x ((LL.mem_allEntries_resort hl hp x).mp hx)⟩
   | compact _ cd d n now' hi htop hvc hdp hs hcut ih =>
-    obtain ⟨⟨h, hv, hl, hu, himm⟩, hsf, hsub⟩ := ih
+    obtain ⟨⟨h, hv, hl, hu, himm⟩, hho, hsub⟩ := ih
     have hc := C12_validChoice_compactOk h hv hi htop hvc
     refine ⟨⟨C14_compact_inv h hv hc hs hcut, C14_compact_verBound h hv hc hs,
-      C14_compact_layeredX h hl hc (fun hk => C12_validChoice_topsOldest h hsf hi.1 htop hvc hk) hs,
-      C14_compact_keyVerUnique h hu hc hs, ?_⟩, C14_l0sf_compact h hc hsf hs,
+      C14_compact_layeredX h hl hc (fun hk => C12_validChoice_topsOldest h hi.1 htop hvc hk) hs,
+      C14_compact_keyVerUnique h hu hc hs, ?_⟩, hho,
       fun x hx => hsub x (LL.mem_allEntries_compact' h hc hs hx)⟩
     obtain ⟨_, _, rfl⟩ := LL.compact_some hs; exact himm
   | dropPrefix _ ps flushIds base numKeep steps hbl hbetween hcuts hrun ih =>
-    obtain ⟨hg, hsf, hsub⟩ := ih
-    obtain ⟨hg', hsf', hsub'⟩ := dropPrefixRun_good hg hsf hbl hbetween hcuts hrun
-    refine ⟨hg', hsf', ?_⟩
+    obtain ⟨hg, hho, hsub⟩ := ih
+    obtain ⟨hg', hsub'⟩ := dropPrefixRun_good hg hbl hbetween hcuts hrun
+    refine ⟨hg', fun e he => hho e (List.mem_filter.mp he).1, ?_⟩
     intro e he
     refine List.mem_filter.mpr ⟨hsub e (hsub' e he), ?_⟩
     have := C29_prefix_gone hg.1 hg.2.1 (by omega) hrun e he
     simp [notDropped, this]
   | @dropAll hist dm nm s _ _ =>
     rw [Lsm.dropAll_eq_init]
-    exact ⟨LL.init_good _, C14_l0sf_init _, fun e he => absurd he (LL.init_no_entries _ e)⟩
+    exact ⟨LL.init_good _, fun e he => by simp at he, fun e he => absurd he (LL.init_no_entries _ e)⟩
 
 /-- **C29 over histories (good states)** — every state reached by commits, flushes, picker-valid
     compactions, `DropPrefix` runs and `DropAll` is good -/
@@ -322,13 +327,21 @@ theorem C29_reachD_reads {nlev : Nat} {hist : List Ent} {dm nm : Nat} {s : Lsm} 
     obtain ⟨⟨h, _, _, _, himm⟩, _, _⟩ := C29_reachD_inv r
     rw [C12_flush_reads_noimm h himm]
     exact ih hts hnow
+  | @resort hist dm nm s r l0 l0' rest hl hp ih =>
+    obtain ⟨⟨h, _, _, hu, _⟩, _, _⟩ := C29_reachD_inv r
+    have hf : TblsFun l0 := by
+      intro a ha b hb x hx y hy hk hv
+      exact hu x (LL.mem_allEntries.mpr (.inr (.inr ⟨0, l0, a, by rw [hl]; rfl, ha, hx⟩)))
+        y (LL.mem_allEntries.mpr (.inr (.inr ⟨0, l0, b, by rw [hl]; rfl, hb, hy⟩))) hk hv
+    rw [LL.resort_get h hl hp hf]
+    exact ih hts hnow
   | @compact hist dm nm s s' r cd d n now' hi htop hvc hdp hs hcut ih =>
-    obtain ⟨⟨h, hv, hl, hu, _⟩, hsf, _⟩ := C29_reachD_inv r
-    rw [C12_compact_reads_valid h hv hl hu hsf hi htop hvc hdp hs (by omega) (by omega)]
+    obtain ⟨⟨h, hv, hl, hu, _⟩, _, _⟩ := C29_reachD_inv r
+    rw [C12_compact_reads_valid h hv hl hu hi htop hvc hdp hs (by omega) (by omega)]
     exact ih (by omega) (by omega)
   | @dropPrefix hist dm nm s s' r ps flushIds base numKeep steps hbl hbetween hcuts hrun ih =>
-    obtain ⟨⟨h, hv, hl, hu, himm⟩, hsf, hsub⟩ := C29_reachD_inv r
-    have hg' := (dropPrefixRun_good ⟨h, hv, hl, hu, himm⟩ hsf hbl hbetween hcuts hrun).1
+    obtain ⟨⟨h, hv, hl, hu, himm⟩, _, hsub⟩ := C29_reachD_inv r
+    have hg' := (dropPrefixRun_good ⟨h, hv, hl, hu, himm⟩ hbl hbetween hcuts hrun).1
     cases hk : hasAnyPrefix k ps with
     | true =>
       rw [C29_prefix_invisible h hv (by omega) hrun (LL.lsmInv_weaken hg'.1) hk ts]
@@ -392,6 +405,7 @@ theorem C29_reachD_hist_unique {nlev : Nat} {hist : List Ent} {dm nm : Nat} {s :
     · have := hfresh x hx' hk; omega
     · exact ih x hx' y hy' hk hv
   | flush _ _ ih => exact ih
+  | resort _ _ _ ih => exact ih
   | compact _ _ _ _ _ _ _ _ _ _ _ ih => exact ih
   | dropPrefix _ _ _ _ _ _ _ _ _ _ ih =>
     exact LL.kvFun_subset ih (fun x hx => (List.mem_filter.mp hx).1)
